@@ -253,6 +253,7 @@ func NewRig(cfg Cfg) (*Rig, error) {
 		for {
 			select {
 			case raw := <-r.H.Outgoing():
+				raw = append([]byte{}, raw...) // what a writer would put on the wire now
 				d := MakeDigest(raw)
 				d.T = r.ms()
 				r.mu.Lock()
